@@ -662,7 +662,95 @@ def r12_every_item_validated(ctx, cfg):
     ctx.info("C07.R12: %d iterator closure(s) call an in-scope validator" % n)
 
 
+HOOKS_EXEMPT = {
+    "NoOpValidationHooks": "the documented opt-out ('always returns valid ... only in trusted environments'); choosing it is the caller's decision, not a validator",
+}
+
+
+def r13_hooks_hash(ctx, cfg):
+    """the verdict of a ValidationHooks implementation is what the caches act on: every implementation of validate_content / validate_on_get
+    either hashes the data (a digest call in the body) or hands the question to another implementation of the same trait - on every path to a return"""
+    rule = "C07.R13"
+    ctx.rule(rule, "every path through an implementation of ValidationHooks::validate_content / validate_on_get passes a digest computation or a call "
+                   "of ValidationHooks::validate_content / validate_on_get (NoOpValidationHooks, the documented opt-out, excepted)")
+    impls = [b for b in ctx.prog.bodies.values() if b.item in ("validate_content", "validate_on_get") and b.coroutine
+             and ((b.trait or "").endswith("ValidationHooks") or re.search(r"\bValidationHooks::validate_(content|on_get)\b", b.id))]
+    ctx.floor(rule, len(impls), 6, "implementations of ValidationHooks::validate_content / validate_on_get")
+    for b in sorted(impls, key=lambda x: x.id):
+        ctx.saw(b)
+        ex = [k for k in HOOKS_EXEMPT if re.search(r"\b%s\b" % k, b.self_ty or b.id)]
+        if ex:
+            ctx.ok(rule, [b.id, "exempt"], "exempt: " + HOOKS_EXEMPT[ex[0]], b.loc(), nontrivial=False)
+            continue
+        through = {c.bb for c in b.calls if DIG.search(c.name) or re.search(r"ValidationHooks>?::validate_(content|on_get)$", c.orig_name or c.name)
+                   or re.search(r"ValidationHooks>?::validate_(content|on_get)$", c.name)}
+        rets = set(b.return_blocks()) & b.live_blocks()
+        from .lib import succ_without_constant_option_tests
+        succ2 = succ_without_constant_option_tests(b)      # (#[async_trait]'s `if let Some(__ret) = None::<Ret> { return __ret }` prelude is dead code)
+        good = bool(through) and bool(rets) and not (b.reachable([0], avoid=through, succ=succ2) & rets)
+        ctx.check(good, rule, [b.id, "hash-or-delegate"], "every path hashes the data or delegates to another ValidationHooks implementation",
+                  "%s can return a verdict on a path that neither computes a digest of the data nor asks another ValidationHooks implementation: whatever "
+                  "that path answers (a placeholder check, a constant) is what get_validated / put_validated serve and store as verified content"
+                  % ctx._stable(b.id), b.loc(), sample={"digest_or_delegate_blocks": sorted(through)})
+
+
+def r14_guard_covers_record(ctx, cfg):
+    """fixed-size records with a leading hash guard (update-section entries, residency entries): the guard is `hash(record[a..b])`. A byte the
+    deserialiser reads at or beyond b, or between the guard field and a, can be corrupted without the guard noticing - writer and checker share the
+    function, so every round-trip test still passes"""
+    rule = "C07.R14"
+    ctx.rule(rule, "for every `compute_hash_guard(record: &[u8; N])` that hashes record[a..b]: a is the width of the guard it returns, and every constant "
+                   "offset the sibling from_bytes(&[u8; N]) reads lies below b")
+    from . import bounds
+    prog = ctx.prog
+    gs = []
+    for b in prog.bodies.values():
+        if b.root or not b.self_ty or b.argc != 1 or not re.match(r"^&\[u8; \d+\]$", b.local_ty(1) or ""):
+            continue
+        if not any(re.search(r"jenkins::hashlittle2?$|^md5::compute$", c.name) for c in b.calls) or not re.match(r"^u(8|16|32|64)$", b.local_ty(0) or ""):
+            continue
+        gs.append(b)
+    ctx.floor(rule, len(gs), 3, "hash functions over a fixed-size record")
+    for g in sorted(gs, key=lambda x: x.id):
+        ctx.saw(g)
+        N = int(re.match(r"^&\[u8; (\d+)\]$", g.local_ty(1)).group(1))
+        a = bounds.Analysis(g)
+        rs = [sk for sk in a.sinks if sk.kind == "range" and len(sk.index_lins) == 2 and all(x.is_const() for x in sk.index_lins) and ("[u8; %d]" % N) in sk.what]
+        if not rs and any(sk.kind == "range" and len(sk.index_lins) == 1 for sk in a.sinks):
+            ctx.ok(rule, [g.id, "other-scheme"], "hashes a prefix `..b` (checksum stored behind the data, LocalHeader): not the leading-guard layout", g.loc(), nontrivial=False)
+            continue
+        if not ctx.anchor(rule, rs, "constant hashed range in %s" % g.id):
+            continue
+        lo, hi = rs[0].index_lins[0].c, rs[0].index_lins[1].c
+        width = int(re.match(r"^u(\d+)$", g.local_ty(0)).group(1)) // 8
+        ctx.check(lo == width, rule, [g.id, "starts-after-guard"], "the hashed range starts right after the %d-byte guard" % width,
+                  "%s hashes record[%d..%d] but the guard it returns is %d bytes wide: bytes %d..%d are neither the guard nor covered by it"
+                  % (ctx._stable(g.id), lo, hi, width, min(lo, width), max(lo, width)), g.loc(), sample={"range": [lo, hi], "guard_bytes": width})
+        sibs = [b for b in prog.bodies.values() if not b.root and b.self_ty == g.self_ty and b.item == "from_bytes" and b.local_ty(1) == g.local_ty(1)]
+        if not ctx.anchor(rule, sibs, "from_bytes(&[u8; %d]) next to %s" % (N, g.id)):
+            continue
+        for d in sibs:
+            ctx.saw(d)
+            ad = bounds.Analysis(d)
+            reads = set()
+            for sk in ad.sinks:
+                if sk.kind == "bounds" and sk.index_lins and sk.index_lins[0].is_const() and sk.goals and sk.goals[0] is not None and sk.goals[0].is_const():
+                    i = sk.index_lins[0].c
+                    if i + 1 - sk.goals[0].c == N:
+                        reads.add(i)
+                elif sk.kind == "range" and ("[u8; %d]" % N) in sk.what and len(sk.index_lins) == 2 and all(x.is_const() for x in sk.index_lins):
+                    reads |= set(range(sk.index_lins[0].c, sk.index_lins[1].c))
+            if not ctx.anchor(rule, reads, "constant offsets read by %s" % d.id):
+                continue
+            out = sorted(i for i in reads if i >= hi)
+            ctx.check(not out, rule, [g.id, "covers-what-is-read"], "every offset from_bytes reads (%d..%d) is guarded or is the guard" % (min(reads), max(reads)),
+                      "%s hashes record[%d..%d], but %s also reads offset(s) %s: corrupting those bytes (a status byte turning a live entry into a tombstone) "
+                      "leaves the guard valid" % (ctx._stable(g.id), lo, hi, ctx._stable(d.id), out), g.loc(), sample={"range": [lo, hi], "read_offsets": sorted(reads)})
+
+
 def run(ctx, cfg=CFG):
+    r14_guard_covers_record(ctx, cfg)
+    r13_hooks_hash(ctx, cfg)
     r12_every_item_validated(ctx, cfg)
     r11_hash_is_read(ctx, cfg)
     r10_skipped_only_when_absent(ctx, cfg)
